@@ -907,6 +907,104 @@ def c15_order_part(pid, seed):
     return 0, info
 
 
+HYGIENE_HEADER = """#![allow(unused)]
+use brood::{entities, entity, Registry, World};
+#[derive(Clone, Debug, PartialEq)] pub struct A(pub u32);
+#[derive(Clone, Debug, PartialEq)] pub struct B(pub u32);
+pub type W = World<Registry!(A, B)>;
+pub unsafe fn danger() -> A { A(7) }
+pub unsafe fn dangerb() -> B { B(7) }
+pub unsafe fn danger_n() -> usize { 2 }
+"""
+HYGIENE_PROGRAMS = [
+    ("cloned_first", "w.extend(entities!((danger()); 2));", "reject"),
+    ("cloned_second", "w.extend(entities!((A(1), dangerb()); 2));", "reject"),
+    ("cloned_size", "w.extend(entities!((A(1)); danger_n()));", "reject"),
+    ("rows_first", "w.extend(entities!((danger()), (A(2))));", "reject"),
+    ("rows_later", "w.extend(entities!((A(1), B(1)), (A(2), dangerb())));", "reject"),
+    ("null_size", "w.extend(entities!((); danger_n()));", "reject"),
+    ("entity_macro", "w.insert(entity!(danger()));", "reject"),
+    ("control_cloned", "w.extend(entities!((A(1), B(2)); 2));", "accept"),
+    ("control_rows", "w.extend(entities!((A(1)), (A(2))));", "accept"),
+    ("control_null", "w.extend(entities!((); 3));", "accept"),
+    ("control_marked", "w.extend(entities!((unsafe { danger() }); 2));", "accept"),
+]
+
+
+def c05_hygiene_part(pid, seed):
+    """The macros that contain `unsafe` must not lend it to the caller's expressions (C05: no SAFE code misuses
+    memory): a call of an `unsafe fn` written as a macro argument, without an `unsafe` block of the caller's own,
+    must be rejected by rustc (E0133)."""
+    out = os.path.join(common.BUILD, "hygiene")
+    os.makedirs(os.path.join(out, "src"), exist_ok=True)
+    lines = HYGIENE_HEADER.split("\n")
+    fam = []
+    for name, body, expect in HYGIENE_PROGRAMS:
+        first = len(lines) + 1
+        lines.append("pub mod p_%s { use super::*; pub fn f(w: &mut W) { %s } }" % (name, body))
+        fam.append({"name": name, "body": body, "expect": expect, "first_line": first, "last_line": len(lines)})
+    text = "\n".join(lines) + "\n"
+    lp = os.path.join(out, "src", "lib.rs")
+    if not os.path.exists(lp) or open(lp).read() != text:
+        open(lp, "w").write(text)
+    ct = "[package]\nname = \"hygiene\"\nversion = \"0.0.0\"\nedition = \"2021\"\n\n[dependencies]\nbrood = { path = \"%s\" }\n\n[workspace]\n" % common.REPO
+    cp = os.path.join(out, "Cargo.toml")
+    if not os.path.exists(cp) or open(cp).read() != ct:
+        open(cp, "w").write(ct)
+    lock = os.path.join(out, "Cargo.lock")
+    if not os.path.exists(lock):
+        open(lock, "w").write(open(os.path.join(common.REPO, "Cargo.lock")).read())
+    e = common.env()
+    e["CARGO_TARGET_DIR"] = os.path.join(common.BUILD, "target_resorder")
+    e["RUSTFLAGS"] = "-Awarnings"
+    errs, saw = [], False
+    with common.Lock("cargo-resorder"):
+        p = common.run(["cargo", "check", "--offline", "--message-format=json", "--lib"], cwd=out, check=False, env_=e, timeout=1800)
+    for line in p.stdout.split("\n"):
+        if not line.startswith("{"):
+            continue
+        try:
+            m = json.loads(line)
+        except ValueError:
+            continue
+        if m.get("reason") == "build-finished":
+            saw = True
+        if m.get("reason") != "compiler-message" or m["message"].get("level") != "error":
+            continue
+        if m.get("target", {}).get("name", "") != "hygiene":
+            raise Infra("brood itself does not compile: " + m["message"].get("message", "")[:300])
+        code = (m["message"].get("code") or {}).get("code")
+        spans = [sp for sp in m["message"].get("spans", []) if sp.get("is_primary")] or m["message"].get("spans", [])
+        for sp in spans[:1]:
+            hops = 0
+            while not sp.get("file_name", "").endswith("src/lib.rs") and (sp.get("expansion") or {}).get("span") and hops < 16:
+                sp = sp["expansion"]["span"]
+                hops += 1
+            if sp.get("file_name", "").endswith("src/lib.rs"):
+                errs.append((sp["line_start"], code, m["message"]["message"][:160]))
+    if not saw and not errs:
+        raise Infra("cargo check produced no result for the hygiene programs: " + p.stdout[-600:])
+    info = {"programs": len(fam), "rejected": 0}
+    for pr in fam:
+        mine = [(c, msg) for (ln, c, msg) in errs if pr["first_line"] <= ln <= pr["last_line"]]
+        got = "reject" if mine else "accept"
+        info["rejected"] += 1 if mine else 0
+        bad = None
+        if got != pr["expect"]:
+            bad = "rustc %ss `%s`, which must be %sed: %s" % (got, pr["body"], pr["expect"],
+                   "an unsafe function is called from code without any `unsafe` of its own (the macro lends its unsafe block to the "
+                   "caller's expression)" if got == "accept" else "; ".join("%s %s" % x for x in mine[:2]))
+        elif got == "reject" and not any(c == "E0133" for c, _ in mine):
+            bad = "`%s` is rejected, but not for the call of an unsafe function: %s" % (pr["body"], mine[:2])
+        if bad:
+            path = write_replay(pid, seed, {"property": pid, "kind": "failing-program", "message": bad, "program": pr,
+                                            "how_to_replay": "cd build/hygiene && cargo check --offline --lib  (module p_%s)" % pr["name"]})
+            print("VIOLATION property=%s replay=%s" % (pid, path))
+            print("  " + bad)
+            return 1, info
+    return 0, info
+
+
 def c13_probe_part(pid, seed):
     """len() after caught panics the world-history harness cannot build (harness/src/bin/lenprobe.rs)."""
     err = common.build_harness(["lenprobe"])
@@ -936,6 +1034,17 @@ def c13_probe_part(pid, seed):
 
 
 def run_check(pid, tier, seed, t0):
+    if pid == "C05":
+        rc = wh_check(pid, tier, seed, t0)
+        rc2, info = (0, {}) if rc else c05_hygiene_part(pid, seed)
+        ev = os.path.join(EVIDENCE, pid + ".json")
+        if os.path.exists(ev):
+            d = json.load(open(ev))
+            d.setdefault("coverage", {})["unsafe_hygiene_programs"] = info
+            if rc2:
+                d["violations"] = max(1, d.get("violations", 0))
+            json.dump(d, open(ev, "w"), indent=1)
+        return rc or rc2
     if pid == "C13":
         rc = wh_check(pid, tier, seed, t0)
         rc2, info = (0, {}) if rc else c13_probe_part(pid, seed)
@@ -996,6 +1105,9 @@ def run_check(pid, tier, seed, t0):
 def replay(pid, path):
     if pid == "C15" and json.load(open(path)).get("kind") == "failing-schedule-run":
         return replay_sched(pid, path)
+    if pid == "C05" and json.load(open(path)).get("kind") == "failing-program":
+        print(json.dumps(json.load(open(path)), indent=1)[:2000])
+        return c05_hygiene_part(pid, 1)[0]
     if pid == "C13" and json.load(open(path)).get("kind") == "failing-program":
         print(json.dumps(json.load(open(path)), indent=1)[:2000])
         return c13_probe_part(pid, 1)[0]
